@@ -8,7 +8,7 @@ import gen
 from codecdiff import Diff, build_pool
 
 PROP = "C03"
-MODULES = ["DV.Properties.C03", "DV.Properties.C03Round", "DV.Properties.C03Tables"]
+MODULES = ["DV.Properties.C03", "DV.Properties.C03Round", "DV.Properties.C03Nested", "DV.Properties.C03Tables"]
 
 
 def dict_entry(code, vendor):
